@@ -2,7 +2,327 @@
 From LanceV Require Import Common.Base Table.Model_DML.
 From Coq Require Import Permutation.
 
-(* the transcribed CASE table against the specification table, by computation over the whole finite domain *)
-Definition tvs : list tv := [TT; TF; TN].
-Definition wms : list when_matched := [WmUpdateAll; WmUpdateIf (BLit TT); WmDoNothing; WmFail].
-Definition nss : list when_nmbs := [NsKeep; NsDelete; NsDeleteIf (BLit TT)].
+(* ================================================================== generic list facts *)
+Lemma filter_negb_all {A} (d : A -> bool) (l : list A) :
+  existsb d l = false -> filter (fun r => negb (d r)) l = l.
+Proof.
+  induction l as [|x l IH]; cbn [existsb filter]; intro H; [reflexivity|].
+  apply orb_false_iff in H as [Hx Hl]. rewrite Hx. cbn [negb]. rewrite IH by exact Hl. reflexivity.
+Qed.
+
+Lemma filter_length_split {A} (d : A -> bool) (l : list A) :
+  (length (filter (fun r => negb (d r)) l) + length (filter d l) = length l)%nat.
+Proof.
+  induction l as [|x l IH]; cbn [filter length]; [reflexivity|].
+  destruct (d x); cbn [negb length]; lia.
+Qed.
+
+Lemma perm_filter_split {A} (d : A -> bool) (l : list A) :
+  Permutation (filter (fun r => negb (d r)) l ++ filter d l) l.
+Proof.
+  induction l as [|x l IH]; cbn [filter]; [constructor|].
+  destruct (d x); cbn [negb].
+  - eapply Permutation_trans; [apply Permutation_sym, Permutation_middle|]. constructor. exact IH.
+  - cbn [app]. constructor. exact IH.
+Qed.
+
+Lemma flat_map_app_pointwise {A B} (f g : A -> list B) (l : list A) :
+  Permutation (flat_map f l ++ flat_map g l) (flat_map (fun x => f x ++ g x) l).
+Proof.
+  induction l as [|x l IH]; cbn [flat_map app]; [constructor|].
+  rewrite <- !app_assoc. apply Permutation_app_head.
+  eapply Permutation_trans; [|apply Permutation_app_head; exact IH].
+  rewrite !app_assoc. apply Permutation_app_tail. apply Permutation_app_comm.
+Qed.
+
+Lemma flat_map_ext_in {A B} (f g : A -> list B) (l : list A) :
+  (forall x, In x l -> f x = g x) -> flat_map f l = flat_map g l.
+Proof.
+  induction l as [|x l IH]; cbn [flat_map]; intro H; [reflexivity|].
+  rewrite (H x (or_introl eq_refl)). rewrite IH; [reflexivity|]. intros y Hy. apply H. right. exact Hy.
+Qed.
+
+Lemma filter_ext_in' {A} (f g : A -> bool) (l : list A) :
+  (forall x, In x l -> f x = g x) -> filter f l = filter g l.
+Proof.
+  induction l as [|x l IH]; cbn [filter]; intro H; [reflexivity|].
+  rewrite (H x (or_introl eq_refl)). rewrite IH; [reflexivity|]. intros y Hy. apply H. right. exact Hy.
+Qed.
+
+Lemma filter_as_flat_map {A} (d : A -> bool) (l : list A) :
+  filter d l = flat_map (fun x => if d x then [x] else []) l.
+Proof.
+  induction l as [|x l IH]; cbn [filter flat_map]; [reflexivity|]. rewrite IH. destruct (d x); reflexivity.
+Qed.
+
+Lemma map_as_flat_map {A B} (f : A -> B) (l : list A) : map f l = flat_map (fun x => [f x]) l.
+Proof. induction l as [|x l IH]; cbn [map flat_map app]; [reflexivity|]. rewrite IH. reflexivity. Qed.
+
+Lemma flat_map_length_sum {A B} (f : A -> list B) (l : list A) :
+  length (flat_map f l) = fold_right (fun x acc => length (f x) + acc)%nat O l.
+Proof. induction l as [|x l IH]; cbn [flat_map fold_right length]; [reflexivity|]. rewrite app_length, IH. reflexivity. Qed.
+
+(* ================================================================== three-valued logic sanity *)
+Lemma is_tt_iff t : is_tt t = true <-> t = TT.
+Proof. destruct t; cbn; split; intro H; congruence. Qed.
+
+(* ================================================================== DELETE *)
+Lemma live_app f g : live (f ++ g) = live f ++ live g.
+Proof. unfold live. apply flat_map_app. Qed.
+
+Lemma abs_app a b : abs (a ++ b) = abs a ++ abs b.
+Proof. unfold abs. apply flat_map_app. Qed.
+
+Lemma live_del_slots d f : live (del_slots d f) = filter (fun r => negb (d r)) (live f).
+Proof.
+  induction f as [|[r|] f IH]; cbn [del_slots map live flat_map app filter]; [reflexivity| |exact IH].
+  fold (del_slots d f). fold (live (del_slots d f)). fold (live f).
+  destruct (d r); cbn [negb live flat_map app]; rewrite IH; reflexivity.
+Qed.
+
+Lemma live_all_none f : forallb is_none f = true -> live f = [].
+Proof.
+  induction f as [|[r|] f IH]; cbn [forallb is_none andb live flat_map app]; intro H; [reflexivity|discriminate|].
+  apply IH. exact H.
+Qed.
+
+Lemma abs_c_apply_deletions d ct :
+  abs (c_apply_deletions d ct) = filter (fun r => negb (d r)) (abs ct).
+Proof.
+  induction ct as [|f ct IH]; [reflexivity|].
+  unfold c_apply_deletions, abs in *. cbn [flat_map]. rewrite flat_map_app, filter_app, IH. f_equal.
+  destruct (existsb d (live f)) eqn:E.
+  - destruct (forallb is_none (del_slots d f)) eqn:F; cbn [flat_map app].
+    + apply live_all_none in F. rewrite live_del_slots in F. symmetry. exact F.
+    + rewrite app_nil_r. apply live_del_slots.
+  - cbn [flat_map app]. rewrite app_nil_r. symmetry. apply filter_negb_all. exact E.
+Qed.
+
+Lemma abs_c_delete p ct : abs (c_delete p ct) = a_delete p (abs ct).
+Proof. apply abs_c_apply_deletions. Qed.
+
+(* a row stays iff the predicate is not TRUE on it: FALSE and NULL rows are kept, in their old order *)
+Lemma a_delete_spec p t : a_delete p t = filter (fun r => negb (tv_eqb (eval_b r p) TT)) t.
+Proof.
+  unfold a_delete, sel. apply filter_ext. intro r. destruct (eval_b r p); reflexivity.
+Qed.
+
+Lemma a_delete_in p t r : In r (a_delete p t) <-> In r t /\ eval_b r p <> TT.
+Proof.
+  unfold a_delete. rewrite filter_In. unfold sel. destruct (eval_b r p); cbn; intuition congruence.
+Qed.
+
+(* ================================================================== counts *)
+Lemma frag_slots f : (length f = length (live f) + ndeleted f)%nat.
+Proof.
+  unfold ndeleted. induction f as [|[r|] f IH]; cbn [length live flat_map app filter is_none]; [reflexivity| |].
+  - fold (live f). cbn [length]. lia.
+  - fold (live f). cbn [length]. lia.
+Qed.
+
+Definition physical (ct : ctable) : nat := fold_right (fun f acc => length f + acc)%nat O ct.
+
+Lemma physical_split ct : (physical ct = length (abs ct) + count_deleted ct)%nat.
+Proof.
+  induction ct as [|f ct IH]; [reflexivity|].
+  unfold physical, count_deleted, abs in *. cbn [fold_right flat_map]. rewrite app_length, IH, (frag_slots f). lia.
+Qed.
+
+Lemma new_frag_abs rows : abs (new_frag rows) = rows.
+Proof.
+  destruct rows as [|r rows]; [reflexivity|]. unfold new_frag, abs. cbn [flat_map]. rewrite app_nil_r.
+  generalize (r :: rows). intro l. induction l as [|x l IH]; cbn [map live flat_map app]; [reflexivity|].
+  fold (live (map Some l)). rewrite IH. reflexivity.
+Qed.
+
+Lemma new_frag_deleted rows : count_deleted (new_frag rows) = O.
+Proof.
+  destruct rows as [|r rows]; [reflexivity|]. unfold new_frag, count_deleted. cbn [fold_right].
+  unfold ndeleted. generalize (r :: rows). intro l.
+  induction l as [|x l IH]; cbn [map filter is_none length]; [reflexivity|]. exact IH.
+Qed.
+
+Lemma count_deleted_app a b : (count_deleted (a ++ b) = count_deleted a + count_deleted b)%nat.
+Proof. unfold count_deleted. induction a as [|f a IH]; cbn [app fold_right]; [reflexivity|]. rewrite IH. lia. Qed.
+
+(* ================================================================== UPDATE *)
+Lemma abs_c_update p asg ct : abs (c_update p asg ct) = a_update p asg (abs ct).
+Proof.
+  unfold c_update, a_update. rewrite abs_app, abs_c_apply_deletions, new_frag_abs. reflexivity.
+Qed.
+
+Lemma a_update_length p asg t : length (a_update p asg t) = length t.
+Proof. unfold a_update. rewrite app_length, map_length. apply filter_length_split. Qed.
+
+Lemma a_update_perm p asg t :
+  Permutation (a_update p asg t) (map (fun r => if sel p r then apply_seq asg r else r) t).
+Proof.
+  unfold a_update.
+  rewrite (map_as_flat_map (fun r => if sel p r then apply_seq asg r else r) t).
+  rewrite (filter_as_flat_map (fun r => negb (sel p r)) t), (filter_as_flat_map (sel p) t).
+  rewrite (map_as_flat_map (apply_seq asg)), flat_map_concat_map, <- flat_map_concat_map.
+  assert (E : flat_map (fun x => [apply_seq asg x]) (flat_map (fun x => if sel p x then [x] else []) t)
+              = flat_map (fun x => if sel p x then [apply_seq asg x] else []) t).
+  { induction t as [|x t IH]; cbn [flat_map]; [reflexivity|]. rewrite flat_map_app, IH.
+    destruct (sel p x); reflexivity. }
+  rewrite E.
+  eapply Permutation_trans; [apply flat_map_app_pointwise|].
+  erewrite flat_map_ext_in; [apply Permutation_refl|].
+  intros x _. cbn beta. destruct (sel p x); reflexivity.
+Qed.
+
+(* --- sequential = simultaneous when no assignment reads another assignment's column *)
+Lemma nth_set_nth_same c v r : (c < length r)%nat -> nth c (set_nth c v r) None = v.
+Proof.
+  revert c; induction r as [|x r IH]; intros [|c] H; cbn [length set_nth nth] in *; try lia; [reflexivity|].
+  apply IH. lia.
+Qed.
+
+Lemma nth_set_nth_other c c' v r : c <> c' -> nth c (set_nth c' v r) None = nth c r None.
+Proof.
+  revert c c'; induction r as [|x r IH]; intros c c' H; [destruct c, c'; reflexivity|].
+  destruct c' as [|c']; destruct c as [|c]; cbn [set_nth nth]; try reflexivity; [congruence|].
+  apply IH. congruence.
+Qed.
+
+Lemma set_nth_length c v r : length (set_nth c v r) = length r.
+Proof. revert c; induction r as [|x r IH]; intros [|c]; cbn [set_nth length]; try reflexivity. rewrite IH. reflexivity. Qed.
+
+Lemma set_nth_comm c1 c2 v1 v2 r : c1 <> c2 ->
+  set_nth c1 v1 (set_nth c2 v2 r) = set_nth c2 v2 (set_nth c1 v1 r).
+Proof.
+  revert c1 c2; induction r as [|x r IH]; intros c1 c2 H; [destruct c1, c2; reflexivity|].
+  destruct c1 as [|c1]; destruct c2 as [|c2]; cbn [set_nth]; try reflexivity; [congruence|].
+  rewrite IH by congruence. reflexivity.
+Qed.
+
+Lemma eval_v_ext r1 r2 e :
+  (forall c, In c (cols_v e) -> nth c r1 None = nth c r2 None) -> eval_v r1 e = eval_v r2 e.
+Proof.
+  induction e as [i|c|a IHa b IHb|a IHa b IHb|a IHa b IHb]; cbn [eval_v cols_v]; intro H.
+  - apply H. left. reflexivity.
+  - reflexivity.
+  - rewrite IHa, IHb; [reflexivity| |]; intros c Hc; apply H; apply in_or_app; auto.
+  - rewrite IHa, IHb; [reflexivity| |]; intros c Hc; apply H; apply in_or_app; auto.
+  - rewrite IHa, IHb; [reflexivity| |]; intros c Hc; apply H; apply in_or_app; auto.
+Qed.
+
+(* no assignment reads the column of an assignment of another column *)
+Definition no_cross (asg : list assignment) : Prop :=
+  forall a b, In a asg -> In b asg -> fst a <> fst b -> ~ In (fst b) (cols_v (snd a)).
+
+Lemma known_update_false asg : Known_C12_update_reads_assigned_column asg = false -> no_cross asg.
+Proof.
+  unfold Known_C12_update_reads_assigned_column, no_cross. intros H a b Ha Hb Hne Hin.
+  assert (T : existsb (fun a => existsb (fun b => negb (Nat.eqb (fst a) (fst b)) && existsb (Nat.eqb (fst b)) (cols_v (snd a))) asg) asg = true).
+  { apply existsb_exists. exists a. split; [exact Ha|]. apply existsb_exists. exists b. split; [exact Hb|].
+    apply andb_true_iff. split.
+    - apply negb_true_iff. apply Nat.eqb_neq. exact Hne.
+    - apply existsb_exists. exists (fst b). split; [exact Hin|]. apply Nat.eqb_refl. }
+  congruence.
+Qed.
+
+Lemma no_cross_perm asg asg' : Permutation asg asg' -> no_cross asg -> no_cross asg'.
+Proof.
+  intros P H a b Ha Hb. apply H; eapply Permutation_in; try apply Permutation_sym; eauto.
+Qed.
+
+Definition sim_fold (r0 : row) (asg : list assignment) (acc : row) : row :=
+  fold_left (fun r' a => set_nth (fst a) (eval_v r0 (snd a)) r') asg acc.
+
+Lemma sim_fold_perm r0 asg asg' : Permutation asg asg' -> NoDup (map fst asg) ->
+  forall acc, sim_fold r0 asg acc = sim_fold r0 asg' acc.
+Proof.
+  unfold sim_fold. induction 1 as [|x l l' P IH|x y l|l1 l2 l3 P1 IH1 P2 IH2]; intros ND acc.
+  - reflexivity.
+  - cbn [fold_left]. apply IH. inversion ND; assumption.
+  - cbn [fold_left]. f_equal. apply set_nth_comm.
+    cbn [map] in ND. inversion ND as [|? ? Hn _]. intro E. apply Hn. left. exact E.
+  - rewrite IH1 by exact ND. apply IH2. eapply Permutation_NoDup; [apply Permutation_map; exact P1|exact ND].
+Qed.
+
+(* the sequential fold started from a row that agrees with r0 outside the columns written so far *)
+Lemma seq_is_sim r0 asg : NoDup (map fst asg) -> no_cross asg ->
+  forall (done_ : list assignment) acc,
+    (forall a, In a asg -> ~ In (fst a) (map fst done_)) ->
+    (forall a, In a done_ -> forall b, In b asg -> ~ In (fst a) (cols_v (snd b))) ->
+    (forall c, ~ In c (map fst done_) -> nth c acc None = nth c r0 None) ->
+    fold_left (fun r' a => set_nth (fst a) (eval_v r' (snd a)) r') asg acc = sim_fold r0 asg acc.
+Proof.
+  unfold sim_fold. induction asg as [|x asg IH]; intros ND NC done_ acc Hfresh Hnr Hagree; [reflexivity|].
+  cbn [fold_left].
+  assert (Ex : eval_v acc (snd x) = eval_v r0 (snd x)).
+  { apply eval_v_ext. intros c Hc. apply Hagree. intro Hd. apply in_map_iff in Hd as [a [Ea Ha]].
+    apply (Hnr a Ha x (or_introl eq_refl)). rewrite Ea. exact Hc. }
+  rewrite Ex.
+  cbn [map] in ND. inversion ND as [|? ? Hx ND']. subst.
+  apply (IH ND') with (done_ := x :: done_).
+  - intros a b Ha Hb. apply NC; right; assumption.
+  - intros a Ha. cbn [map]. intros [E|Hd].
+    + apply Hx. rewrite E. apply in_map. exact Ha.
+    + apply (Hfresh a (or_intror Ha)). exact Hd.
+  - intros a [Ea|Ha] b Hb.
+    + subst a. intro Hin. apply (NC b x (or_intror Hb) (or_introl eq_refl)); [|exact Hin].
+      intro E. apply Hx. rewrite <- E. apply in_map. exact Hb.
+    + apply Hnr; [exact Ha|right; exact Hb].
+  - intros c Hc. cbn [map] in Hc. rewrite nth_set_nth_other.
+    + apply Hagree. intro Hd. apply Hc. right. exact Hd.
+    + intro E. apply Hc. left. symmetry. exact E.
+Qed.
+
+Lemma apply_seq_is_simul asg r : NoDup (map fst asg) -> no_cross asg -> apply_seq asg r = apply_simul asg r.
+Proof.
+  intros ND NC. unfold apply_seq, apply_simul. apply (seq_is_sim r asg ND NC []).
+  - intros a _ [].
+  - intros a [].
+  - intros c _. reflexivity.
+Qed.
+
+(* whatever order the HashMap iterates in, the result is the SQL one *)
+Lemma apply_seq_any_order asg asg' r :
+  Permutation asg asg' -> NoDup (map fst asg) -> Known_C12_update_reads_assigned_column asg = false ->
+  apply_seq asg' r = apply_simul asg r.
+Proof.
+  intros P ND K. pose proof (known_update_false asg K) as NC.
+  rewrite apply_seq_is_simul.
+  - unfold apply_simul. symmetry. apply (sim_fold_perm r asg asg' P ND r).
+  - eapply Permutation_NoDup; [apply Permutation_map; exact P|exact ND].
+  - eapply no_cross_perm; eauto.
+Qed.
+
+(* ================================================================== the action table *)
+Definition is_keep (ns : when_nmbs) : bool := match ns with NsKeep => true | _ => false end.
+Definition wm_fires (wm : when_matched) (cm : tv) : bool :=
+  match wm with WmUpdateAll | WmFail => true | WmUpdateIf _ => is_tt cm | WmDoNothing => false end.
+
+(* where the transcribed CASE agrees with the specification table:
+   everywhere except (a) the F19 cell: a source row with a NULL key and no target row under InsertAll,
+   (b) a matched row whose WHEN MATCHED clause does not fire, when a delete clause follows: the CASE falls
+       through to `not_matched_in_source` (= target row present).  (b) needs WhenNotMatchedBySource <> Keep,
+       which never reaches the CASE (can_use_create_plan). *)
+Definition table_domain (wm : when_matched) (ins : bool) (ns : when_nmbs) (has_key tp : bool) (cm cd : tv) : bool :=
+  negb (ins && negb has_key && negb tp)
+  && (is_keep ns || negb (has_key && tp) || wm_fires wm cm
+      || match ns with NsDeleteIf _ => negb (is_tt cd) | _ => false end).
+
+Lemma action_table_agrees wm ins ns has_key tp cm cd :
+  table_domain wm ins ns has_key tp cm cd = true ->
+  case_table wm ins ns has_key tp cm cd = spec_table wm ins ns has_key tp cm cd.
+Proof.
+  destruct wm, ins, ns, has_key, tp, cm, cd; vm_compute; intro H; try reflexivity; discriminate H.
+Qed.
+
+Lemma action_table_differs wm ins ns has_key tp cm cd :
+  table_domain wm ins ns has_key tp cm cd = false ->
+  case_table wm ins ns has_key tp cm cd <> spec_table wm ins ns has_key tp cm cd.
+Proof.
+  destruct wm, ins, ns, has_key, tp, cm, cd; vm_compute; intro H; try discriminate H; intro E; discriminate E.
+Qed.
+
+(* the settings that reach the CASE (can_use_create_plan) and the rows a Right/Inner join produces *)
+Lemma action_table_fast_path wm ins has_key tp cm cd :
+  wm <> WmDoNothing -> (ins && negb has_key && negb tp) = false ->
+  case_table wm ins NsKeep has_key tp cm cd = spec_table wm ins NsKeep has_key tp cm cd.
+Proof.
+  intros _ H. apply action_table_agrees. unfold table_domain. rewrite H. reflexivity.
+Qed.
